@@ -290,6 +290,17 @@ func (p *Program) Func(pkgPath, recv, name string) *ssa.Function {
 	if n == 1 {
 		return found
 	}
+	// a method turned into a function that takes the receiver as its first parameter (`func handleKEYEvent(d *Device, ...)`)
+	// is still that anchor
+	for _, m := range sp.Members {
+		f, ok := m.(*ssa.Function)
+		if !ok || !sameAnchorName(f.Name(), name) || len(f.Params) == 0 || f.Signature.Recv() != nil {
+			continue
+		}
+		if nt, isN := deref(f.Params[0].Type()).(*types.Named); isN && nt.Obj() == tn {
+			return f
+		}
+	}
 	return nil
 }
 
